@@ -79,7 +79,7 @@ def xcls(shape, k):
 
 def list_class(ns):
     ns = list(ns)
-    c = 'first=' + ('0' if ns[0] == 0 else '1' if ns[0] == 1 else '2' if ns[0] == 2 else '>=3')
+    c = 'first' + ('=0' if ns[0] == 0 else '=1' if ns[0] == 1 else '=2' if ns[0] == 2 else '>=3')
     if len(ns) == 1:
         return c + ':singleton'
     return c + (':contiguous' if all(b - a == 1 for a, b in zip(ns, ns[1:])) else ':gapped')
@@ -169,6 +169,8 @@ def make_one(fn):
         if ns is None:
             CTX.skip(f'{fn}: order list not non-negative strictly ascending (out of domain)')
             return
+        if isinstance(x, np.generic):
+            x = np.asarray(x)       # numpy scalar (e.g. 2*r**2-1 of a 0-D r inside zernike_nm_seq): a 0-D coordinate
         if not isinstance(x, np.ndarray):
             CTX.skip(f'{fn}: coordinates are not an ndarray (out of domain)')
             return
